@@ -16,13 +16,16 @@ import (
 func init() {
 	register(&propDef{
 		id:      "C37",
-		explain: "Structural necessary conditions of race freedom for the state fasthttp itself shares between goroutines (a discipline check, not a race detector): (E8) every access to a field in the guarded-by table happens with its mutex held - the table was discovered from field/lock co-occurrence statistics over the whole module, confirmed entry by entry by reading, and is frozen in the checker with one reason per exemption; helper functions documented to run with the lock held are analysed with the lock held and every call site is checked to hold it; (atomic) a field that is accessed through sync/atomic functions anywhere is accessed only through them; (publish) objects that are read without a lock after publication (DNS cache entries in a sync.Map) have their payload fields assigned only while freshly allocated, never after they became reachable by other goroutines. The table is extended on every run with the Server fields that RequestCtx methods read (handler goroutines, which may outlive their connection after TimeoutError) and that Server methods assign: their plain accesses must hold Server.mu (a field of an atomic type has none). (R-own) no store into a pointer-, channel-, map-, slice- or interface-typed field of a RequestCtx takes its value from the same field of another RequestCtx (connection-level fields excepted, each with a reason): the ctx left with a timed-out handler goroutine and the fresh ctx of the connection goroutine never share a completion channel or timer. Not decided: state outside the table, user handlers, happens-before through channels, the schedules a race detector would need.",
+		explain: "Structural necessary conditions of race freedom for the state fasthttp itself shares between goroutines (a discipline check, not a race detector): (E8) every access to a field in the guarded-by table happens with its mutex held - the table was discovered from field/lock co-occurrence statistics over the whole module, confirmed entry by entry by reading, and is frozen in the checker with one reason per exemption; helper functions documented to run with the lock held are analysed with the lock held and every call site is checked to hold it; (atomic) a field that is accessed through sync/atomic functions anywhere is accessed only through them; (publish) objects that are read without a lock after publication (DNS cache entries in a sync.Map) have their payload fields assigned only while freshly allocated, never after they became reachable by other goroutines. The table is extended on every run with the Server fields that RequestCtx methods read (handler goroutines, which may outlive their connection after TimeoutError) and that Server methods assign: their plain accesses must hold Server.mu (a field of an atomic type has none). (R-own) no store into a pointer-, channel-, map-, slice- or interface-typed field of a RequestCtx takes its value from the same field of another RequestCtx (connection-level fields excepted, each with a reason): the ctx left with a timed-out handler goroutine and the fresh ctx of the connection goroutine never share a completion channel or timer. (R-item) in the pipeline client's call paths a work item goes back to its pool only if it was never queued or its completion was received - between those points the connection goroutines own it. Not decided: state outside the table, user handlers, happens-before through channels, the schedules a race detector would need.",
 		run:     runC37,
 	})
 }
 
 func runC37(p *Prog, r *Report) {
 	ctxFieldsNotShared(p, r)
+	// a pipelined work item is shared with the connection goroutines from the moment it is queued until its completion
+	// is received: giving it back to the pool in between hands it to the next caller while they still use it
+	runPipelineCaller(p, r, "C37")
 	tbl := &lockTable{
 		guards: map[string]string{
 			// worker pool
